@@ -10,12 +10,15 @@
       C03_eb_accept_valid   the table RETURNED by an accepted run: ids < returned count, Opposite involutive between different faces,
                             vertex_corners_ consistent, (position-only) every vertex below the count non-isolated
       C03_eb_faces_valid    position-only streams: every face of the decoded Mesh refers to three point ids < num_points
-      C03_eb_fan_invariant, guard lemmas, C03_eb_*_refuted (which degeneracies are accepted)
+      C03_eb_fan_invariant, guard lemmas, C03_eb_degenerate_faces_refuted (which degeneracy is still accepted)
+      C03_eb_start_faces_share_edges   interior start faces are glued to matching edges (guard of /repo a3a73f7; the former
+                            C03_eb_opposite_edges_refuted witness is now rejected by model and decoder)
       C03_eb_faces_valid_attributes   the same with attribute connectivity data, for arbitrary attribute corner tables
     NOT proved: OOB-freedom / termination of the deduplication walks of AssignPointsToCorners (tied + searched);
     MeshAttributeCornerTable (RecomputeVertices) is not modelled. *)
 From Coq Require Import ZArith List Bool.
-From Draco Require Import Model.Edgebreaker Proofs.Edgebreaker_proofs Proofs.Edgebreaker_fan_proofs Proofs.Edgebreaker_oob_proofs Proofs.Edgebreaker_compact_proofs.
+From Draco Require Import Model.Edgebreaker Proofs.Edgebreaker_proofs Proofs.Edgebreaker_fan_proofs Proofs.Edgebreaker_oob_proofs Proofs.Edgebreaker_compact_proofs
+  Proofs.Edgebreaker_boundary_proofs.
 Import ListNotations.
 Local Open Scope Z_scope.
 
@@ -49,7 +52,7 @@ Print Assumptions C02_eb_caller_guard.
       - Opposite(c) is -1 or a corner of a DIFFERENT face with Opposite(Opposite(c)) = c (no fixed point);
       - vertex_corners_[v], when not -1, is a valid corner that maps to v (left-most corner is a corner of that vertex);
       - n <= num_vertices() of the table; if rm, every vertex below n is non-isolated (the compaction removed all isolated ones).
-    What is NOT guaranteed is stated by the two _refuted theorems below. *)
+    What is NOT guaranteed is stated by the _refuted theorem below. *)
 Theorem C03_eb_accept_valid : forall nev nf nsplit rm syms events bits n sf,
   eb_full nev nf nsplit rm syms events bits = Ok (n, sf) ->
   0 <= n <= nv sf /\
@@ -91,17 +94,25 @@ Theorem C02_eb_decode_mesh_total : forall nev nf nsplit syms events bits,
 Proof. exact eb_decode_mesh_total. Qed.
 Print Assumptions C02_eb_decode_mesh_total.
 
-(** Which degeneracies are NOT rejected (both reproduced on the real decoder, harness kind core/full, same tables):
-    (1) an interior start face is glued to the three boundary edges that LeftMostCorner leads to without comparing vertices
-        (the test Vertex(Previous(corner_a)) == vert_p is missing): symbols E,L + one interior start face are accepted
-        with Opposite(6) = 3 although the two corners do not face the same edge. *)
-Theorem C03_eb_opposite_edges_refuted :
-  exists n s, eb_core 9 9 3 true [7; 3] [] (fun _ => true) = Ok (n, s) /\
-    copp s 6 = 3 /\ c2v s (next_c 6) <> c2v s (prev_c 3).
-Proof. eexists. eexists. split; [vm_compute; reflexivity|]. split; [vm_compute; reflexivity|]. vm_compute. discriminate. Qed.
-Print Assumptions C03_eb_opposite_edges_refuted.
+(** Interior start faces.  Until /repo a3a73f7 an interior start face was glued to the three boundary edges that LeftMostCorner
+    leads to without comparing vertices (symbols E,L + one interior start face were accepted with Opposite(6) = 3 although the two
+    corners did not face the same edge; through the public decoder: a point on no face mapped to kInvalidAttributeValueIndex,
+    defect D24 found by the HOSTILE search).  The decoder now tests Vertex(Previous(corner_a)) == vert_p; the model has the test, the
+    former witness is rejected ([eb_misglued_start_face_rejected] below) and the positive statement holds:
+    [EE s m] = every pair of opposite corners among the first m corners faces the same edge with reversed orientation
+               (Vertex(Next(c)) = Vertex(Previous(Opposite(c))) and Vertex(Previous(c)) = Vertex(Next(Opposite(c)))).
+    Whatever table the symbol phase built and whatever the start-face bits are, the start-face phase preserves EE: every interior
+    start face is glued to matching edges.  (That the SYMBOL phase establishes EE is checked on the implementation by the harness -
+    kind core/full, '!' ACCEPT-INVALID "opposite corners ... do not share their edge" - not proved.) *)
+Theorem C03_eb_start_faces_share_edges : forall nf maxv rm syms events bits s1 s2, 0 <= nf -> 0 <= maxv -> Z.of_nat (length syms) <= nf ->
+  sym_loop (3 * nf) maxv rm (Z.of_nat (length syms)) syms 0 (init_st events) = Ok s1 ->
+  start_loop (3 * nf) maxv nf bits O (stack s1) s1 = Ok s2 ->
+  EE s1 (3 * nfaces s1) -> EE s2 (3 * nfaces s2).
+Proof. exact eb_start_faces_share_edges. Qed.
+Print Assumptions C03_eb_start_faces_share_edges.
 
-(** (2) the C case rejects only vertex_x == vert_a_prev / vert_b_next, the S case tests nothing about vertices: symbols E,S
+(** Which degeneracies are NOT rejected (reproduced on the real decoder, harness kind core/full, same tables): *)
+(** the C case rejects only vertex_x == vert_a_prev / vert_b_next, the S case tests nothing about vertices: symbols E,S
         with the split event (source 1, split 0, right edge) - a well-formed 2.2 stream with 3 vertices, 2 faces, 1 split
         symbol - is accepted by the whole DecodeConnectivity() with the faces (0,0,1) and (0,1,1). *)
 Theorem C03_eb_degenerate_faces_refuted :
@@ -185,3 +196,24 @@ Proof. vm_compute. reflexivity. Qed.
 Example eb_self_join_rejected :
   eb_core 9 9 3 true [7; 3; 1] [(1, 0, 0)] (fun _ => false) = Reject.
 Proof. vm_compute. reflexivity. Qed.
+
+(** the former witness of C03_eb_opposite_edges_refuted (symbols E,L + one interior start face on a 4-edge boundary) is rejected
+    by the guard Vertex(Previous(corner_a)) == vert_p, in the model as in the decoder (harness: kinds core / full) *)
+Example eb_misglued_start_face_rejected :
+  eb_core 9 9 3 true [7; 3] [] (fun _ => true) = Reject /\ eb_full 5 4 0 true [7; 3; 3] [] (fun _ => true) = Reject.
+Proof. split; vm_compute; reflexivity. Qed.
+
+(** the hypotheses of C03_eb_start_faces_share_edges on the tetrahedron: after the symbols E,R,C every opposite pair shares its
+    edge, the interior start face is accepted and the final table still has the property (here: at the glued corner 9) *)
+Example eb_start_faces_share_edges_tetrahedron :
+  exists s1 s2, sym_loop 12 4 true 3 [7; 5; 0] 0 (init_st []) = Ok s1 /\ start_loop 12 4 4 (fun _ => true) O (stack s1) s1 = Ok s2 /\
+    EE s1 (3 * nfaces s1) /\ nfaces s2 = 4 /\ copp s2 9 <> -1 /\
+    c2v s2 (next_c 9) = c2v s2 (prev_c (copp s2 9)) /\ c2v s2 (prev_c 9) = c2v s2 (next_c (copp s2 9)).
+Proof.
+  eexists. eexists. split; [vm_compute; reflexivity|]. split; [vm_compute; reflexivity|]. split.
+  - intros x Hx Ho.
+    match type of Hx with _ <= _ < ?m => let v := eval vm_compute in m in change m with v in Hx end.
+    assert (x = 0 \/ x = 1 \/ x = 2 \/ x = 3 \/ x = 4 \/ x = 5 \/ x = 6 \/ x = 7 \/ x = 8) as Hc by Lia.lia.
+    destruct Hc as [-> | [-> | [-> | [-> | [-> | [-> | [-> | [-> | ->]]]]]]]]; vm_compute in Ho |- *; try (split; reflexivity); exfalso; apply Ho; reflexivity.
+  - repeat split; vm_compute; try reflexivity. discriminate.
+Qed.
